@@ -150,7 +150,7 @@ pub fn grid_volume(r: &mut Rng) -> f64 {
 	(r.below(if F32 { 256 } else { 1 << 16 }) as f64) / 4.0
 }
 
-pub const CANDLE_CLASSES: [&str; 7] = ["walk", "flat-stretches", "zero-volume", "grid", "trends", "extreme", "clean-walk"];
+pub const CANDLE_CLASSES: [&str; 8] = ["walk", "flat-stretches", "zero-volume", "grid", "trends", "extreme", "clean-walk", "long-ramp"];
 
 pub fn mk(o: f64, h: f64, l: f64, c: f64, v: f64) -> Candle {
 	Candle { open: o as V, high: h as V, low: l as V, close: c as V, volume: v as V }
@@ -174,6 +174,30 @@ pub fn candles(class: usize, seed: u64, len: usize, n_hint: usize) -> Vec<Candle
 	let mut trend = 0.0f64;
 	let mut trend_left = 0usize;
 	let vol_base = *r.pick(&[1.0, 1000.0, 1e6]);
+	// long monotone ramps: every candle makes a new high (or a new low), hundreds of steps without a pull-back
+	if class == 7 {
+		let up = r.chance(0.5);
+		let step = *r.pick(&[0.001, 0.004, 0.0005]);
+		let mut p = price * if up { 1.0 } else { 1000.0 };
+		let switch_at = if r.chance(0.3) { len / 2 + r.below(len as u64 / 4 + 1) as usize } else { usize::MAX };
+		let mut dir = if up { 1.0 } else { -1.0 };
+		for i in 0..len {
+			if i == switch_at {
+				dir = -dir;
+			}
+			let o = q(p);
+			p *= 1.0 + dir * step * (1.0 + 0.2 * r.f());
+			let c = q(p);
+			let (lo0, hi0) = (o.min(c), o.max(c));
+			let h = q(hi0 * (1.0 + 0.1 * step));
+			let l = q(lo0 * (1.0 - 0.1 * step));
+			out.push(mk(o, h.max(hi0), l.min(lo0), c, q(vol_base * (0.5 + r.f()))));
+		}
+		for c in &out {
+			assert!(c.validate(), "generator produced an invalid candle {c:?}");
+		}
+		return out;
+	}
 	for i in 0..len {
 		// grid class: everything on k/64, volumes on k/4
 		if class == 3 {
